@@ -26,6 +26,8 @@ func main() {
 			os.Exit(2)
 		}
 		ctx.Tier, ctx.Replay = "quick", os.Args[3]
+		os.Setenv("VERIF_REPLAYING", "1")
+		os.Setenv("VERIF_EVIDENCE_DIR", os.TempDir()) // a replay must not overwrite the evidence of the last full run
 	} else if tier != "quick" && tier != "thorough" {
 		fmt.Fprintln(os.Stderr, "tier must be quick or thorough")
 		os.Exit(2)
